@@ -381,7 +381,11 @@ def run(ch: Checker) -> None:
                 ch.bad('C16.6', parse, 'masked path: ' + ' / '.join('%s=%s' % f for f in list(allfacts(p).items()))[-100:],
                        'on a path where `masked` holds the decoder does not consume exactly one 4-byte masking key (reads: %s); the encoder always writes it'
                        % [str(k[2]) for k in key_reads], witness=p.describe(24))
-            elif len(unmask) != 1 or len(unmask[0][1].args) != 2 or norm(unmask[0][1].args[1]) != 'self.mask':
+            elif len(unmask) != 1 or len(unmask[0][1].args) != 2 or not (
+                    norm(unmask[0][1].args[1]) == 'self.mask' or
+                    # by value: the key handed to apply_mask is what this path stored in self.mask (a local may hold both)
+                    (sym.attr_store('self.mask', unmask[0][0]) is not None and
+                     norm(sym.value(unmask[0][1].args[1], unmask[0][0])) == norm(sym.attr_store('self.mask', unmask[0][0])[1]))):        # type: ignore[index]
                 bad6 += 1
                 ch.bad('C16.6', parse, 'masked path unmask', 'payload of a masked frame is not unmasked exactly once with self.mask', witness=p.describe(24))
         else:
